@@ -32,7 +32,7 @@ enum Op {
     MGet(Vec<usize>), MSet(Vec<(usize, Vec<u8>)>), BatchGet(Vec<usize>), BatchSet(Vec<(usize, Vec<u8>)>),
     Script(usize, Vec<u8>),
 }
-const KEYS: [&str; 3] = ["hot:a", "hot:b", "ctr"];
+const KEYS: [&str; 3] = ["hot:a", "{hot}:b", "ctr"]; // one name with a Redis-Cluster style hash tag
 const SCRIPT: &str = "local v = redis.call('GET', KEYS[1]); redis.call('SET', KEYS[1], (v or '') .. ARGV[1]); return v";
 
 fn label(op: &Op) -> String {
